@@ -1,11 +1,14 @@
-use crate::{common::BinaryOp, syn_utils::expand_self};
+use crate::{
+    common::BinaryOp,
+    syn_utils::{expand_self, DropTrailingPlus},
+};
 use proc_macro2::{Span, TokenStream};
 use quote::quote;
 use std::fmt::Display;
 use structmeta::StructMeta;
 use syn::{
-    parse2, parse_quote, spanned::Spanned, Error, GenericArgument, Ident, ImplItem, ItemImpl, Path,
-    PathArguments, PathSegment, Result, Type,
+    parse2, parse_quote, spanned::Spanned, visit_mut::VisitMut, Error, GenericArgument, Ident, ImplItem,
+    ItemImpl, Path, PathArguments, PathSegment, Result, Type,
 };
 
 #[derive(StructMeta, Debug)]
@@ -110,6 +113,9 @@ enum OpForm {
 }
 
 pub fn build_by_item_impl(attr: TokenStream, item_impl: &ItemImpl) -> Result<TokenStream> {
+    let mut source = item_impl.clone();
+    DropTrailingPlus.visit_item_impl_mut(&mut source);
+    let item_impl = &source;
     let span = Span::call_site();
     let message = "must be used with `impl {Trait} for {Type}`";
     let t = item_impl
